@@ -39,7 +39,12 @@ def main():
         lines = res.get('check_lines') or []
         out[name] = {'check': check, 'caught': res.get('caught'), 'demo_with_change': res.get('demo_with_change'),
                      'first': [l.strip() for l in lines if 'invariant=' in l][:1], 'apply_error': res.get('apply_error')}
-        print(name, check, 'CAUGHT' if res.get('caught') else 'MISSED', out[name]['first'], flush=True)
+        if meta.get('status') == 'obsolete':
+            # harmless on the current tree (a later repair removed what it broke): expected to pass its own demo
+            out[name]['note'] = 'obsolete: ' + meta.get('detected_by', '')
+            print(name, check, 'OBSOLETE demo_with_change=%s caught=%s' % (res.get('demo_with_change'), res.get('caught')), flush=True)
+        else:
+            print(name, check, 'CAUGHT' if res.get('caught') else 'MISSED', out[name]['first'], flush=True)
         with open(path, 'w') as handle:
             json.dump(out, handle, indent=1, sort_keys=True)
             handle.write('\n')
